@@ -238,6 +238,8 @@ type tlv struct {
 
 // splitTLV splits well-formed (already walked) DER into its elements.
 func splitTLV(b []byte) (out []tlv) {
+	// Also called on byte strings that are only PRESUMED to hold elements (defaultEncoded on the output for a
+	// value outside the domain, or of an implementation that mis-tags): anything malformed ends the list.
 	for off := 0; off < len(b); {
 		id := b[off]
 		off++
@@ -245,6 +247,9 @@ func splitTLV(b []byte) (out []tlv) {
 		if tag == 0x1f {
 			tag = 0
 			for {
+				if off >= len(b) {
+					return
+				}
 				c := b[off]
 				off++
 				tag = tag<<7 | int(c&0x7f)
@@ -253,15 +258,26 @@ func splitTLV(b []byte) (out []tlv) {
 				}
 			}
 		}
+		if off >= len(b) {
+			return
+		}
 		l := int(b[off])
 		off++
 		if l > 0x80 {
 			nb := l & 0x7f
+			if nb > 4 || off+nb > len(b) {
+				return
+			}
 			l = 0
 			for i := 0; i < nb; i++ {
 				l = l<<8 | int(b[off+i])
 			}
 			off += nb
+		} else if l == 0x80 {
+			return
+		}
+		if l < 0 || off+l > len(b) {
+			return
 		}
 		out = append(out, tlv{ctag{int(id >> 6), tag}, b[off : off+l]})
 		off += l
